@@ -143,6 +143,13 @@ def rule_r1(ctx, rep):
         for p in ps:
             if any(any(x is p.if_node for x in ast.walk(s)) for s in fall) and isinstance(p.code, EnumMember) and p.code.member == "UNKNOWN_CONTENT_RULE":
                 ok = True
+        # ... or through a private reporting function called from the fall-through arm
+        for (f0, _call) in arm_chain(ctx, fi, fall):
+            for g in reachable(ctx, [f0]):
+                if g.qname in mps or mode_params(ctx, [g]).get(g.qname):
+                    gp, _ = report_sites(ctx, g, mps.get(g.qname) or mode_params(ctx, [g]).get(g.qname))
+                    if any(isinstance(p.code, EnumMember) and p.code.member == "UNKNOWN_CONTENT_RULE" for p in gp):
+                        ok = True
     rep.oblige(("R1", "fallthrough"), ok)
     if not ok:
         rep.add("R1", fi.qname, "fall-through arm", "an unrecognised content-rule name is not reported as UNKNOWN_CONTENT_RULE", fi.loc(loop))
